@@ -3,6 +3,7 @@
 
 mod c31;
 mod c34;
+mod c36;
 
 fn main() {
     let args = hcore::Args::parse();
@@ -10,6 +11,7 @@ fn main() {
     let mut out = hcore::Out::new();
     match args.prop.as_str() {
         "C31" => c31::run(&args, &mut out),
+        "C36" => c36::run(&args, &mut out),
         "C34" => c34::run(&args, &mut out),
         p => {
             let _ = &mut out;
